@@ -113,19 +113,6 @@ func c04r1(c *Ctx) {
 	const rule = "C04-R1"
 	c.Rule(rule, "every balance write below a non-exempt entry point is cut by the freeze/pause gate bound to the written account, token key, own pause handler and the return-after-error flag", 25)
 	c.Axiom("A-presence")
-	gates := findGates(c.P)
-	if len(gates) == 0 {
-		c.Anchor(rule, "the freeze/pause gate (an error-returning function of builtInFunctions that calls IsPaused on a parameter)")
-		return
-	}
-	gp := map[*ssa.Function]gateParams{}
-	for _, g := range gates {
-		if idx, ok := gateParamIdx(g); ok {
-			gp[g] = idx
-		} else {
-			c.Anchor(rule, "parameters (address, key, pause handler, flag) of gate "+FuncName(g))
-		}
-	}
 	bal := balancePrefix(c.P)
 	isSave := func(in ssa.Instruction) (string, bool) {
 		if ci, ok := in.(ssa.CallInstruction); ok && InvokeName(ci) == "AccountDataHandler.SaveKeyValue" {
@@ -194,87 +181,114 @@ func c04r1(c *Ctx) {
 			origins := accountOrigin(s.Env, acct, 0)
 			addrs := addressesOf(x, origins, s.Env.Term(acct))
 			token := ks.Parts[0]
+			// The write must be cut — in its own function or at a call above it — by
+			//   (return-after-error flag | the account is the system contract's | entry of that account not Frozen)   and by
+			//   (return-after-error flag | the account is the system contract's | IsPaused(own handler, ELRONDesdt‖token) == false).
+			// The facts may come from inlined tests, from the gate function (whose success returns are summarised as a
+			// disjunction of what each guarantees) or from a wrapper around it: no function is recognised by name or shape.
 			why := ""
 			flagTerm := "*" + x.in + ".VMInput.ReturnCallAfterError"
 			flagTrue := func(f Fact) bool { return !f.Lin && f.Pos && f.Atom == "cond:"+flagTerm }
-			var pred func(f Fact) bool
-			wrapDepth := 0
-			pred = func(f Fact) bool {
-				if f.Lin || !f.Pos || f.Call == nil || !strings.HasPrefix(f.Atom, "ok:") {
+			scAddr := func(f Fact) bool {
+				if f.Lin || !f.Pos || !strings.HasPrefix(f.Atom, "eq(") {
 					return false
 				}
-				sc := f.Call.Common().StaticCallee()
-				idx, isGate := gp[sc]
-				if !isGate {
-					// a wrapper around the gate (`checkDestinationRestrictions`): each of its success returns is cut by the
-					// gate (bound as required) or by the same return-after-error flag under which the gate itself succeeds
-					if sc == nil || len(sc.Blocks) == 0 || !c.P.InPkgs(sc, "builtInFunctions") || !lastIsError(sc) || wrapDepth >= 2 || f.Env == nil || f.Env.depth >= 6 {
-						return false
+				for a := range addrs {
+					if f.Atom == eqAtom(a, esdtSCAddrTerm) {
+						return true
 					}
-					reachesGate := false
-					for g := range gp {
-						if c.P.ReachableFrom([]*ssa.Function{sc})[g] {
-							reachesGate = true
-						}
-					}
-					if !reachesGate {
-						return false
-					}
-					wrapDepth++
-					defer func() { wrapDepth-- }()
-					sub := f.Env.Sub(f.Call, sc)
-					n := 0
-					for _, r := range returnsOf(sc) {
-						if !isSuccessReturn(r) {
-							continue
-						}
-						n++
-						if _, ok := sub.CutAt(r, orPred(pred, flagTrue), nil); !ok {
-							return false
-						}
-					}
-					return n > 0
 				}
-				a := f.Call.Common().Args
-				if !addrs[f.Env.Term(a[idx.addr])] {
-					why = "gate called with address " + f.Env.Term(a[idx.addr]) + ", not the address of the written account (" + strings.Join(origins, ",") + ")"
+				if strings.Contains(f.Atom, esdtSCAddrTerm) && why == "" {
+					why = "the system-contract exemption is tested on " + f.Atom + ", not on the address of the written account (" + strings.Join(origins, ",") + ")"
+				}
+				return false
+			}
+			// entries whose Frozen flag counts: the one read from the written account, or a fresh literal (nothing held yet)
+			entryTerms := map[string]string{}
+			for _, l := range levelsOf(s) {
+				note := func(v ssa.Value) {
+					if strings.HasSuffix(v.Type().String(), "esdt.ESDigitalToken") {
+						entryTerms[l.env.Term(v)] = entryOrigin(l.env, v, 0)
+					}
+				}
+				for _, par := range l.env.Fn.Params {
+					note(par)
+				}
+				for _, bb := range l.env.Fn.Blocks {
+					for _, in := range bb.Instrs {
+						if v, ok := in.(ssa.Value); ok {
+							note(v)
+						}
+					}
+				}
+			}
+			acctT := s.Env.Term(acct)
+			notFrozen := func(f Fact) bool {
+				if f.Lin || f.Pos || !strings.HasPrefix(f.Atom, "cond:") || !strings.HasSuffix(f.Atom, ".Frozen") {
 					return false
 				}
-				gk := keyShape(f.Env, a[idx.key], 0)
+				i := strings.Index(f.Atom, "(*")
+				j := strings.Index(f.Atom, ".Properties")
+				if i < 0 || j < i {
+					return false
+				}
+				t := f.Atom[i+2 : j]
+				org, known := entryTerms[t]
+				if known && (org == "literal" || org == "read:"+acctT) {
+					return true
+				}
+				for a := range addrs { // the entry was read from an account denoted by one of the written account's other names
+					if org == "read:"+strings.TrimSuffix(strings.TrimPrefix(a, "UserAccountHandler.AddressBytes("), ",)") {
+						return true
+					}
+				}
+				if why == "" {
+					why = "the only gates on the way test the Frozen flag of an entry that is " + org + ", not the entry held by the written account"
+				}
+				return false
+			}
+			notPaused := func(f Fact) bool {
+				if f.Lin || f.Pos || f.Call == nil || !strings.HasPrefix(f.Atom, "call:") || InvokeName(f.Call) != "ESDTPauseHandler.IsPaused" || f.Env == nil {
+					return false
+				}
+				cc := f.Call.Common()
+				if pt := f.Env.Term(cc.Value); !strings.HasPrefix(pt, "*"+recv+".") {
+					why = "pause asked of " + pt + ", not a field of the executing function object"
+					return false
+				}
+				gk := keyShape(f.Env, cc.Args[0], 0)
 				if gk == nil || gk.Prefix != bal || len(gk.Parts) != 1 || gk.Parts[0] != token {
 					if why == "" {
 						why = "gate called with key " + gk.String() + ", not the token-level key \"" + bal + "\"‖" + token
 					}
 					return false
 				}
-				if pt := f.Env.Term(a[idx.pause]); !strings.HasPrefix(pt, "*"+recv+".") {
-					why = "gate called with pause handler " + pt + ", not a field of the executing function object"
-					return false
-				}
-				if idx.data >= 0 {
-					org := entryOrigin(f.Env, a[idx.data], 0)
-					if org != "literal" && org != "read:"+s.Env.Term(acct) {
-						if why == "" {
-							why = "the only gates on the way test the Frozen flag of an entry that is " + org + ", not the entry held by the written account"
-						}
-						return false
-					}
-				}
-				if ft := f.Env.Term(a[idx.flag]); ft != "*"+x.in+".VMInput.ReturnCallAfterError" {
-					why = "gate called with flag " + ft + " instead of the input's ReturnCallAfterError"
-					return false
-				}
 				return true
 			}
-			if fs, where, ok := s.CutInContext(pred, nil); ok {
-				c.OK(rule, FuncName(s.In.Parent()), construct, pos, "cut in "+where+" by "+fs[0].String())
+			predA := orPred(flagTrue, scAddr, notFrozen)
+			predB := orPred(flagTrue, scAddr, notPaused)
+			fa, whereA, okA := s.CutInContext(predA, nil)
+			fb, whereB, okB := s.CutInContext(predB, nil)
+			if okA && okB {
+				c.OK(rule, FuncName(s.In.Parent()), construct, pos, "cut in "+whereA+" by "+fa[0].Key()+" and in "+whereB+" by "+fb[0].Key())
 			} else {
 				d := "balance write is reachable without passing the freeze/pause gate for the written account and token"
+				switch {
+				case !okA && !okB:
+				case !okA:
+					d += ": the Frozen flag of the account's entry is not tested on some path"
+				default:
+					d += ": IsPaused(token) is not asked on some path"
+				}
 				if why != "" {
 					d += " (" + why + ")"
 				}
-				c.FailX(Oblig{Rule: rule, Func: FuncName(s.In.Parent()), Construct: construct, Pos: pos, Kind: "violation", Detail: d, Path: s.witnessPath(pred),
-					Expected: "gate(address of " + strings.Join(origins, "/") + ", \"" + bal + "\"‖" + token + ", own pause handler, ReturnCallAfterError) succeeding on every path"})
+				pw := predA
+				if okA {
+					pw = predB
+				}
+				c.FailX(Oblig{Rule: rule, Func: FuncName(s.In.Parent()), Construct: construct, Pos: pos, Kind: "violation", Detail: d, Path: s.witnessPath(pw),
+					Expected: "on every path: ReturnCallAfterError, or address == ESDTSCAddress, or (entry of " + strings.Join(origins, "/") + " not Frozen and IsPaused(own handler, \"" + bal + "\"‖" + token + ") == false)"})
 			}
 		}
 	}
@@ -284,12 +298,18 @@ func c04r1(c *Ctx) {
 func c04r2(c *Ctx) {
 	const rule = "C04-R2"
 	c.Rule(rule, "the gate succeeds only under return-after-error, address == ESDTSCAddress, or not frozen and not paused", 3)
+	ngates := 0
+	defer func() {
+		if ngates == 0 {
+			c.Triv(rule, "-", "no separate gate function", "-", "the freeze / pause tests are inlined where the balance is written; R1 checks them there")
+		}
+	}()
 	for _, g := range findGates(c.P) {
 		idx, ok := gateParamIdx(g)
-		if !ok || idx.data < 0 {
-			c.Anchor(rule, "parameters of gate "+FuncName(g))
-			continue
+		if !ok || idx.data < 0 || reachesInvoke(c.P, g, "AccountDataHandler.SaveKeyValue", 0) {
+			continue // not a pure gate (the tests are inlined into a function that also writes): R1 checks the tests where they are
 		}
+		ngates++
 		e := c.P.Env(g)
 		par := func(i int) string { return "P:" + paramName(g.Params[i]) }
 		flagPred := func(f Fact) bool { return !f.Lin && f.Pos && f.Atom == "cond:"+par(idx.flag) }
